@@ -33,7 +33,7 @@ def patched_files(sid, patch, scratch):
         shutil.copy(os.path.join(REPO, f), os.path.join(md, f))
         items.append("%s=%s" % (f, os.path.join(md, f)))
     p = subprocess.run(["git", "apply", "--directory=" + md.lstrip("/"), "--unsafe-paths", patch], cwd="/",
-                       stdout=subprocess.PIPE, stderr=subprocess.STDOUT, text=True)
+                       stdout=subprocess.PIPE, stderr=subprocess.STDOUT, text=True, errors="replace")
     if p.returncode != 0:
         raise SystemExit("patch of %s does not apply on top of /repo: %s" % (sid, p.stdout))
     return ",".join(items)
@@ -63,7 +63,7 @@ def main():
                 e = dict(os.environ, VERIF_MUTATE=mut, VERIF_SEED=seed, VERIF_REPLAY_DIR=os.path.join(scratch, "replays"),
                          VERIF_EVIDENCE_DIR=os.path.join(scratch, "evidence"),
                          VERIF_BUILD_DIR=os.path.join(scratch, "build"))
-                p = subprocess.run(["./run.sh", c, tier], cwd=VERIF, env=e, stdout=subprocess.PIPE, stderr=subprocess.STDOUT, text=True)
+                p = subprocess.run(["./run.sh", c, tier], cwd=VERIF, env=e, stdout=subprocess.PIPE, stderr=subprocess.STDOUT, text=True, errors="replace")
                 classes = re.findall(r"^\s+\[([^\]]+)\] (?:x)?(\d+)", p.stdout, re.M)
                 res[c] = {"exit": p.returncode, "violation_classes": ["%s x%s" % x for x in classes][:12],
                           "summary": p.stdout.strip().splitlines()[-1] if p.stdout.strip() else ""}
